@@ -9,7 +9,14 @@ from translator import t1_operators
 ID = 'C18'
 TRANSLATORS = [t1_operators.translate]
 PROPERTY_FILE = 'Properties/C18.v'
-THEOREMS = []
+THEOREMS = ['C18_apply_is_sequencing', 'C18_sequencing_append', 'C18_linearize_flattens', 'C18_linearize_app',
+            'C18_composition_is_its_list', 'C18_list_is_sequencing', 'C18_append_is_sequencing',
+            'C18_pipe_is_sequencing', 'C18_cleanup_is_sequencing', 'C18_cleanup_is_transforms',
+            'C18_outs_ok_of_WF', 'C18_pipeline_keeps_outs_ok', 'C18_sequencing_needs_outs_ok',
+            'C18_rr_effect', 'C18_rr_idempotent', 'C18_rr_total', 'C18_example_wf', 'C18_example_rr',
+            'C18_md_effect', 'C18_sig_eqb_spec', 'C18_md_effect_before_rr', 'C18_example_md',
+            'C18_mu_no_double_negation', 'C18_mu_no_buffer_reference', 'C18_mu_needs_arity',
+            'C18_example_mu', 'C18_example_mu_iff']
 PARTIAL = {}
 LEVEL_TEXT = 'pending'
 LEVEL_NOTE = 'pending'
